@@ -255,7 +255,13 @@ func (C12) Generate(c *Ctx, r *Rand, index int) *Scenario {
 	}
 	nf := rf.Weighted([]int{0, 70, 22, 8})
 	for k := 0; k < nf; k++ {
-		switch rf.Weighted([]int{30, 25, 12, 10, 10, 8}) {
+		switch rf.Weighted([]int{30, 25, 12, 10, 10, 8, 8}) {
+		case 6: // a runtime failure (panic) inside the evaluation: the deferred finalisers run while it unwinds
+			sc.Plan.PanicSite = Pick(rf, []string{"op", "op", "print.node", "print.node", "print", "decode", "lex.token"})
+			sc.Plan.PanicAt = int64(rf.Range(1, 6))
+			if sc.Plan.PanicSite == "op" {
+				sc.Plan.PanicAt = int64(rf.Range(1, 40))
+			}
 		case 0: // errno at a step
 			if len(steps) == 0 {
 				continue
@@ -399,6 +405,8 @@ func faultTags(o *Outcome) string {
 			t = "err@" + e.Site
 		case e.Decision == "kill":
 			t = "kill@" + e.Site
+		case e.Decision == "panic":
+			t = "panic@" + e.Site
 		case strings.HasPrefix(e.Decision, "closefault"):
 			t = "closefault@" + e.Site
 		}
@@ -560,8 +568,19 @@ func (C12) Judge(c *Ctx, sc *Scenario) []Violation {
 			// the observed outcome stands, but which call is hit may differ in a replay
 			Probabilistic: strings.Contains(sc.Strace, "when=")})
 	}
-	if crashed, how := out.Crashed(); crashed {
+	// the panic is the injected one if it was raised inside the hook's Yield (message and trace line may
+	// themselves be lost to a write fault that strace injects into the same process)
+	injectedPanic := sc.Plan.PanicAt > 0 && bytes.Contains(out.Stderr, []byte("verifhook.(*planController).Yield("))
+	for _, e := range out.Events {
+		if e.Decision == "panic" {
+			injectedPanic = true
+		}
+	}
+	if crashed, how := out.Crashed(); crashed && !injectedPanic {
 		add("O12.0", "crash="+how, "yq -i crashed: "+firstLines(out.Stderr, 6))
+	}
+	if injectedPanic && !c.Quiet {
+		c.Count("probe.runtime_failure_unwound_through_the_in_place_finaliser")
 	}
 	if out.Signal != 0 && !killed {
 		add("O12.0", fmt.Sprintf("signal=%d", out.Signal), "yq -i ended by an unexpected signal")
